@@ -515,3 +515,108 @@ def K10_K11_codec(rep, flow: Flow, tier):
             rep.ok("K11", 1, nontrivial=k, sample=k)
         else:
             rep.finding("K11", f"edge-primitive:{k}", f"graph.py Graph: edge primitive fact fails: {k}")
+
+
+def _k12_chunk(args):
+    """worker: evaluate both forms on the graphs of n vertices whose edge mask lies in [lo, hi)"""
+    root, overlay, n, lo, hi = args
+    from .vfs import Tree
+    prog = pyfacts.Program(Tree(root, overlay))
+    return _k12_eval(prog, n, lo, hi)
+
+
+def _k12_eval(prog, n, lo, hi):
+    gc = prog.cls("graph.Graph")
+    ce = CE(prog, max_steps=2_000_000_000)
+    forms = [(nm, gc.methods[nm]) for nm in ("local_complementation", "local_complemented") if nm in gc.methods]
+    pairs = [(i, j) for i in range(n) for j in range(i + 1, n)]
+    ok, bad, sample = 0, [], None
+    for mask in range(lo, hi):
+        edges = [p for k, p in enumerate(pairs) if mask >> k & 1]
+        eset = set(edges)
+        for v in range(n):
+            nb = [u for u in range(n) if (min(u, v), max(u, v)) in eset and u != v]
+            want = set(eset)
+            for a in nb:
+                for b in nb:
+                    if a < b:
+                        want ^= {(a, b)}
+            for (nm, meth) in forms:
+                g = _graph(ce, prog, n, edges)
+                try:
+                    res = ce.call_func(meth, [g, v], {})
+                except CERaise as ex:
+                    bad.append((f"{nm}:raise:{n}:{edges}:{v}", f"graph.py Graph.{nm}({v}) on edges {edges} raises {ex.etype}"))
+                    continue
+                out = g if nm == "local_complementation" else res
+                why = _graph_problem(out, n, want)
+                if why is None and nm == "local_complemented":
+                    A0 = g.attrs["adjacency_matrix"].d
+                    if {(a, b) for (a, b) in pairs if A0[a][b]} != eset:
+                        why = "the receiver was modified"
+                if why is None:
+                    try:
+                        res2 = ce.call_func(meth, [out, v], {})
+                        out2 = out if nm == "local_complementation" else res2
+                        why2 = _graph_problem(out2, n, eset)
+                        if why2:
+                            why = "applying it twice does not restore the graph: " + why2
+                    except CERaise as ex:
+                        why = f"second application raises {ex.etype}"
+                if why:
+                    if len(bad) < 50:
+                        bad.append((f"{nm}:{n}:{edges}:{v}", f"graph.py Graph.{nm}({v}) on the graph with edges {edges} ({n} vertices): {why}"))
+                else:
+                    ok += 1
+                    if sample is None:
+                        sample = f"{nm}({v}) on {edges} (n={n}): -> {sorted(want)}"
+    return ok, bad, sample, ce.steps
+
+
+def K12_local_complementation(rep, flow: Flow, tier):
+    nmax = 5 if tier == "quick" else 6
+    rep.rule("K12", f"local complementation (in-place and copying form), evaluated for EVERY graph on 2..{nmax} vertices and every vertex: exactly the edges among the neighbours are complemented, the result is a simple graph (symmetric 0/1, zero diagonal), applying it twice gives the original back, the copying form leaves its receiver untouched", floor=10, exhaustive=True)
+    prog = flow.prog
+    gc = prog.cls("graph.Graph")
+    if not any(nm in gc.methods for nm in ("local_complementation", "local_complemented")):
+        raise AnalysisError("Graph.local_complementation / local_complemented vanished")
+    steps = 0
+    jobs = []
+    for n in range(2, nmax + 1):
+        total = 1 << (n * (n - 1) // 2)
+        if n <= 5:
+            jobs.append((n, 0, total))
+        else:
+            step = total // 64
+            jobs += [(n, lo, min(total, lo + step)) for lo in range(0, total, step)]
+    small = [j for j in jobs if j[0] <= 5]
+    big = [j for j in jobs if j[0] > 5]
+    results = [_k12_eval(prog, *j) for j in small]
+    if big:
+        import concurrent.futures
+        with concurrent.futures.ProcessPoolExecutor(max_workers=16) as ex:
+            results += list(ex.map(_k12_chunk, [(flow.tree.root, flow.tree.overlay) + j for j in big]))
+    for (ok, bad, sample, st) in results:
+        steps += st
+        if ok:
+            rep.ok("K12", ok, sample=sample, distinct=ok)
+        for (key, msg) in bad:
+            rep.finding("K12", key, msg)
+    rep.analysed["K12 evaluation steps"] = steps
+
+
+def _graph_problem(g, n, want_edges):
+    if not isinstance(g, Instance):
+        return f"result is {g!r}, not a graph"
+    A = g.attrs.get("adjacency_matrix")
+    if not isinstance(A, Mat) or A.shape != (n, n):
+        return "adjacency is not an n x n matrix"
+    d = A.d
+    if any(d[i][i] != 0 for i in range(n)):
+        return f"the diagonal is not zero ({[d[i][i] for i in range(n)]}): not a simple graph"
+    if any(d[i][j] != d[j][i] for i in range(n) for j in range(n)) or any(x not in (0, 1) for r in d for x in r):
+        return "adjacency is not a symmetric 0/1 matrix"
+    got = {(i, j) for i in range(n) for j in range(i + 1, n) if d[i][j]}
+    if got != set(want_edges):
+        return f"edges {sorted(got)}, expected {sorted(want_edges)}"
+    return None
